@@ -107,7 +107,26 @@ structure RepairJust (cx : Ctx) (cr : ShardRepair) (r : Request) : Prop where
       (∃ via ∈ cr.ok, r.raftAddress = via.address) ∧
       (∃ h ∈ cx.hosts, r.addressList = [h.address] ∧ liveFilter cx.tick nodeHostTTL h = true ∧
         basicFilter cr.shard.shardId h = true) ∧
-      ∃ d, cx.def? cr.shard.shardId = some d ∧ cr.failed.length + cr.ok.length + cr.toStart.length ≤ d.members.length)
+      (∃ d, cx.def? cr.shard.shardId = some d ∧ cr.failed.length + cr.ok.length + cr.toStart.length ≤ d.members.length) ∧
+      -- the new member's id is non-zero and not the id of a member of the view (repaired, F-C02)
+      ∃ id, r.members = [id] ∧ id ≠ 0 ∧ ∀ m ∈ cr.shard.replicas, m.replicaId ≠ id)
+
+/-- the redraw loop returns a non-zero id that no member of the view uses -/
+theorem freshId_spec (c : Shard) : ∀ (draws : List Nat) (id : Nat) (rest : List Nat), freshId c draws = some (id, rest) →
+    id ≠ 0 ∧ ∀ m ∈ c.replicas, m.replicaId ≠ id := by
+  intro draws
+  induction draws with
+  | nil => intro id rest h; simp [freshId] at h
+  | cons d ds ih =>
+    intro id rest h
+    unfold freshId at h
+    split at h
+    · rename_i hc
+      simp only [Option.some.injEq, Prod.mk.injEq] at h
+      obtain ⟨rfl, _⟩ := h
+      simp only [Bool.and_eq_true, bne_iff_ne, ne_eq, Bool.not_eq_true', List.any_eq_false, beq_iff_eq] at hc
+      exact ⟨hc.1, fun m hm => hc.2 m hm⟩
+    · exact ih id rest h
 
 theorem nth?_mem {α : Type} {l : List α} {i : Nat} {a : α} (h : nth? l i = some a) : a ∈ l := by
   unfold nth? at h; exact List.mem_of_getElem? h
@@ -255,10 +274,12 @@ theorem repairOne_spec (cx : Ctx) (cr : ShardRepair) (draws : List Nat) (one : L
                 cases dr1 with
                 | nil => simp [hrep] at h
                 | cons d1 dr2 =>
-                  cases dr2 with
-                  | nil => simp [hrep] at h
-                  | cons d2 draws2 =>
-                    simp only [hrep] at h
+                  simp only [hrep] at h
+                  cases hfr : freshId cr.shard dr2 with
+                  | none => simp [hfr] at h
+                  | some p =>
+                    obtain ⟨d2, draws2⟩ := p
+                    simp only [hfr] at h
                     cases hvia : nth? cr.ok (d1 % cr.ok.length) with
                     | none => simp [hvia] at h
                     | some via =>
@@ -277,8 +298,9 @@ theorem repairOne_spec (cx : Ctx) (cr : ShardRepair) (draws : List Nat) (one : L
                         simp only [hav, Bool.true_and, Bool.and_eq_true, decide_eq_true_eq, not_and, Nat.not_lt] at hdel
                         have := hdel hfpos
                         omega
+                      obtain ⟨hnz, hnew⟩ := freshId_spec cr.shard dr2 d2 _ hfr
                       refine ⟨rfl, rfl, Or.inr (Or.inr ⟨rfl, rfl, hav, hts, ?_, ⟨via, nth?_mem hvia, rfl⟩,
-                        ⟨hst, hmem, rfl, hlive, hfs ▸ hbasic⟩, d, hd, hsize⟩)⟩
+                        ⟨hst, hmem, rfl, hlive, hfs ▸ hbasic⟩, ⟨d, hd, hsize⟩, d2, rfl, hnz, hnew⟩)⟩
                       intro h0; rw [h0] at hfpos; simp at hfpos
         · simp only [hadd, SRes.ok.injEq] at h
           obtain ⟨rfl, _⟩ := h
